@@ -84,7 +84,10 @@ def gen_detect(repo, read):
     prog = stmts(body)
     # _ThreadWakeup: the three methods, each guarded by the closed flag
     tw = {}
-    for name, want in (("wakeup", "if not self._closed:\n    self._writer.send_bytes(b'')"),
+    wk = [un(x) for x in strip_docstring(find_function(tree, "_ThreadWakeup.wakeup").body)]
+    wakeup_plain = wk == ["if not self._closed:\n    self._writer.send_bytes(b'')"]
+    wakeup_skips = wk == ["if not self._closed and (not self._reader.poll()):\n    self._writer.send_bytes(b'')"]
+    for name, want in (("wakeup", wk[0] if (wakeup_plain or wakeup_skips) else "<neither shape>"),
                        ("clear", "if not self._closed:\n    while self._reader.poll():\n        self._reader.recv_bytes()"),
                        ("close", "if not self._closed:\n    self._closed = True\n    self._writer.close()\n    self._reader.close()")):
         b = [un(x) for x in strip_docstring(find_function(tree, "_ThreadWakeup." + name).body)]
@@ -95,6 +98,7 @@ def gen_detect(repo, read):
             "From Coq Require Import List Bool.\nFrom LokyV Require Import Lib.DetectLib.\nImport ListNotations.\n"
             f"Definition wait_prog : list dstmt := {lst(prog)}.\n"
             f"Definition wakeup_writes_one_message_unless_closed : bool := {bl(tw['wakeup'])}.\n"
+            f"Definition wakeup_writes_only_when_nothing_is_pending : bool := {bl(wakeup_skips)}.\n"
             f"Definition clear_drains_every_message_unless_closed : bool := {bl(tw['clear'])}.\n"
             f"Definition close_closes_both_ends_once : bool := {bl(tw['close'])}.\n")
     return text, {"program": prog, "thread_wakeup": tw}
